@@ -2,7 +2,10 @@ module verifharness
 
 go 1.20
 
-require github.com/Comcast/sheens v0.0.0
+require (
+	github.com/Comcast/sheens v0.0.0
+	github.com/jsccast/yaml v0.0.0-20171213031114-31aa0bbd42f2
+)
 
 require (
 	github.com/dlclark/regexp2 v1.7.0 // indirect
